@@ -163,7 +163,8 @@ package transport
 
 // chunk: ghost output of Transport.Read - the bytes it handed to the channel's reader loop
 //@ ghost chunk []byte
-//@ func (*Transport).Read [C01]
+//@ func (*Transport).Read [C01 C16]
+//@   at call! read#1 assert [C16] #the-configured-read-size-is-asked-for arg0 == t.Args.ReadSize
 //@   modifies chunk
 //@   at return set chunk = result.0
 //@   ensures #chunk-is-what-was-read result.0 == chunk
@@ -216,3 +217,14 @@ package transport
 //@   at return assert #the-transport-holds-the-arguments-and-the-implementation result.1 == nil ==> result.0 == t && t.Args == args && t.Impl == i
 //@   at return assert #all-options-were-applied-to-the-implementation result.1 == nil ==> optlog == optT ++ applied(options, i, len(options))
 //@   ensures #nil-on-error result.1 != nil ==> result.0 == nil
+
+// ---- C16: the transport wrapper asks the implementation for exactly the requested size and returns exactly what it got ------
+//@ ghost implOut []byte
+//@ ghost implErr error
+//@ func (*Transport).read [C16]
+//@   at call! Read#1 assert #the-implementation-is-asked-for-the-requested-size recv == t.Impl && arg0 == n
+//@   after call Read#1 set implOut = result.0
+//@   after call Read#1 set implErr = result.1
+//@   at return assert #what-the-implementation-returned-is-returned-unchanged result.0 == implOut && result.1 == implErr
+//@ func (*Transport).ReadN [C16]
+//@   at call! read#1 assert #the-requested-size-is-passed-on arg0 == n
